@@ -31,9 +31,8 @@ Theorem C20_create_dir_all_propagates : forall (S : Type) (h : handler brep S) (
   run h (create_dirs v (d :: ds)) s = (s', Err (with_path e (PPath d))).
 Proof. intros S h. exact (create_dirs_propagates h). Qed.
 
-Theorem C20_overlay_exists_propagates : forall (S : Type) (h : handler brep S) top lower p s s1 s2 e,
-  run h (vp_exists (fst top) (whiteout_path top p)) s = (s1, Ok false) ->
-  run h (read_path top lower p) s1 = (s2, Err e) -> e_kind e <> ENotFound ->
+Theorem C20_overlay_exists_propagates : forall (S : Type) (h : handler brep S) top lower p s s2 e,
+  run h (read_path top lower p) s = (s2, Err e) -> e_kind e <> ENotFound ->
   run h (ovl_exists top lower p) s = (s2, Err e).
 Proof. intros S h. exact (ovl_exists_propagates h). Qed.
 
